@@ -335,7 +335,11 @@ func (e *Engine) VerifyFunction(fn *ssa.Function, opts VerifyOpts) (res *FuncRes
 				case specErr:
 					res.OutOfReach = "contract error: " + x.msg
 				default:
-					panic(r)
+					where := ""
+					if e.curInstr != nil {
+						where = fmt.Sprintf(" at %s in %s (%s)", e.curInstr, e.curInstr.Parent(), e.fset.Position(e.curInstr.Pos()))
+					}
+					res.OutOfReach = fmt.Sprintf("internal error: %v%s", r, where)
 				}
 			}
 		}()
